@@ -197,6 +197,18 @@ func genScenario(t *rapid.T, transports []string) Scenario {
 	if rapid.IntRange(0, 3).Draw(t, "triggerLate") == 0 {
 		s.Trigger = reach[len(reach)-1] // late in the scenario
 	}
+	// the windows the property names: between the started flag, connection registration and the
+	// read-deadline updates – i.e. reader entry, Accept's return, start of a conn's goroutine,
+	// between read and handler
+	var core []string
+	for _, ev := range reach {
+		if strings.HasPrefix(ev, "reader.enter(") || strings.HasPrefix(ev, "lis.accept.return(") || ev == "serveconn.start" || strings.HasPrefix(ev, "accept.policy(") {
+			core = append(core, ev)
+		}
+	}
+	if len(core) > 0 && rapid.IntRange(0, 9).Draw(t, "triggerCore") < 3 {
+		s.Trigger = rapid.SampledFrom(core).Draw(t, "coreTrigger")
+	}
 	if rapid.IntRange(0, 11).Draw(t, "triggerWild") == 0 && nc > 0 {
 		j := rapid.IntRange(1, nc).Draw(t, "tj")
 		q := rapid.IntRange(1, 4).Draw(t, "tq")
@@ -207,6 +219,9 @@ func genScenario(t *rapid.T, transports []string) Scenario {
 	}
 	s.FallbackMs = rapid.SampledFrom([]int{60, 100, 150}).Draw(t, "fallback")
 	s.HoldMs = rapid.SampledFrom([]int{0, 1, 3, 5, 10, 20}).Draw(t, "hold")
+	if !s.spied() && s.HoldMs == 0 {
+		s.HoldMs = 2 // real UDP: "release" is the only observable sign that Shutdown has set its deadline
+	}
 	// context
 	switch rapid.IntRange(0, 9).Draw(t, "ctx") {
 	case 0:
